@@ -1523,6 +1523,113 @@ func sortStrings(a []string) {
 	}
 }
 
+// udpIdleStress: a UDP listener whose sessions time out almost at once (Config.UDPReadTimeout of 1 ns to some microseconds), many
+// remotes sending one datagram each. The idle timer's close must never overtake the open notification (D38: readUDP used to arm
+// the timer before it ran the open handler), and every session gets exactly one of each.
+func udpIdleStress(rep *hx.Report, seed int64, mode string, idle time.Duration, nsess int) {
+	em, os1, async := epollCfg(mode)
+	g := nbio.NewEngine(nbio.Config{Network: "udp", Addrs: []string{"127.0.0.1:0"}, NPoller: 1, EpollMod: em, EPOLLONESHOT: os1,
+		AsyncReadInPoller: async, UDPReadTimeout: idle})
+	type sst struct {
+		opens, closes int
+		closeFirst    bool
+		err           string
+	}
+	var mu sync.Mutex
+	m := map[*nbio.Conn]*sst{}
+	nclosed := 0
+	get := func(c *nbio.Conn) *sst {
+		x := m[c]
+		if x == nil {
+			x = &sst{}
+			m[c] = x
+		}
+		return x
+	}
+	g.OnOpen(func(c *nbio.Conn) {
+		mu.Lock()
+		get(c).opens++
+		mu.Unlock()
+	})
+	g.OnClose(func(c *nbio.Conn, err error) {
+		mu.Lock()
+		x := get(c)
+		if x.opens == 0 {
+			x.closeFirst = true
+		}
+		x.closes++
+		x.err = errID(err)
+		nclosed++
+		mu.Unlock()
+	})
+	if err := g.Start(); err != nil {
+		return
+	}
+	addr := g.Addrs[0]
+	for i := 0; i < nsess; i++ {
+		p, err := net.Dial("udp", addr)
+		if err != nil {
+			continue
+		}
+		p.Write([]byte("x"))
+		p.Close()
+		if i%64 == 63 {
+			time.Sleep(200 * time.Microsecond) // keep the listener's receive buffer from overflowing
+		}
+	}
+	for i := 0; i < 300; i++ { // every session times out by itself
+		mu.Lock()
+		done := nclosed >= len(m) && len(m) > 0
+		mu.Unlock()
+		if done && i > 5 {
+			break
+		}
+		time.Sleep(10 * time.Millisecond)
+	}
+	stopped := make(chan struct{})
+	go func() { g.Stop(); close(stopped) }()
+	replay := map[string]interface{}{"harness": "lifecycle", "tier": "real", "seed": seed, "mode": mode + "/udp", "scenario": "udp-idle-stress",
+		"UDPReadTimeout_ns": idle.Nanoseconds(), "remotes_sending_one_datagram_each": nsess,
+		"rerun": "build/bin/lifecycle -only real -seed <seed> -real <rounds> -model build/ocaml/lifecycle/model -out -"}
+	select {
+	case <-stopped:
+	case <-time.After(stopWatchdog):
+		addOracle(rep, "stop-hangs", "["+mode+"/udp] Engine.Stop did not return after the idle-timeout stress", replay)
+		fdBaselineInvalid = true
+		return
+	}
+	time.Sleep(5 * time.Millisecond)
+	mu.Lock()
+	defer mu.Unlock()
+	inv, badCount, badErr := 0, 0, 0
+	for _, x := range m {
+		if x.closeFirst {
+			inv++
+		}
+		if x.opens != 1 || x.closes != 1 {
+			badCount++
+		}
+		if x.closes >= 1 && x.err != errID(nbio.ErrReadTimeout) && x.err != "nil" {
+			badErr++
+		}
+	}
+	rep.Case(fmt.Sprintf("%s/udp-idle-stress/%v", mode, idle), len(m) > 0)
+	rep.Ops += len(m)
+	rep.StatN("real.udp-idle-stress.sessions", len(m))
+	if inv > 0 {
+		addOracle(rep, "udp-session-close-before-open", fmt.Sprintf("[%s/udp] UDPReadTimeout=%v: %d of %d sessions got their close notification BEFORE their open notification",
+			mode, idle, inv, len(m)), replay)
+	}
+	if badCount > 0 {
+		addOracle(rep, "udp-session-open-close-count", fmt.Sprintf("[%s/udp] UDPReadTimeout=%v: %d of %d sessions did not get exactly one open and one close notification",
+			mode, idle, badCount, len(m)), replay)
+	}
+	if badErr > 0 {
+		addOracle(rep, "wrong-close-error-udp-idle-timeout", fmt.Sprintf("[%s/udp] UDPReadTimeout=%v: %d sessions were notified with an error other than ErrReadTimeout (or nil from Stop)",
+			mode, idle, badErr), replay)
+	}
+}
+
 func udpRound(rep *hx.Report, seed int64, round int, mode string) {
 	rnd := rand.New(rand.NewSource(seed*104729 + int64(round)))
 	for i := 0; i < 3; i++ {
@@ -1736,6 +1843,15 @@ func runReal(rep *hx.Report, seed int64, rounds int) {
 		rejectedCase(rep, seed, modes[round%len(modes)])
 		if !rep.TooMany() {
 			udpRound(rep, seed, round, []string{"LT", "ET"}[round%2])
+		}
+		if !rep.TooMany() {
+			n := 500 // quick: 4 x 500 sessions
+			if rounds > 4 {
+				n = 1500
+			}
+			for i, idle := range []time.Duration{time.Nanosecond, time.Microsecond, 5 * time.Microsecond, 50 * time.Microsecond} {
+				udpIdleStress(rep, seed, modes[(round+i)%len(modes)], idle, n)
+			}
 		}
 		if round == 0 && !rep.TooMany() {
 			fdReuseCase(rep, seed, "LT")
